@@ -24,12 +24,17 @@ type c06Case struct {
 	Shape harness.Shape `json:"shape"`
 	Sel   string        `json:"selector"`
 	Split harness.Split `json:"split"`
-	Mode  string        `json:"pause"` // none | req-hook | resp-hook | resp-reqhook | req-api | resp-api
-	At    int           `json:"at"`    // block index (hooks) or number of delivery events before the API call
+	Mode  string        `json:"pause"`                       // none | req-hook | resp-hook | resp-reqhook | req-api | resp-api
+	At    int           `json:"at"`                          // block index (hooks) or number of delivery events before the API call
+	Batch bool          `json:"responder_batches,omitempty"` // the responder's first message stalls until the whole response is queued behind it: the rest arrives in one message, so a requestor-side pause leaves unread entries queued
 }
 
 func (c c06Case) String() string {
-	return fmt.Sprintf("shape %s selector %s split %s pause %s@%d", c.Shape, c.Sel, c.Split, c.Mode, c.At)
+	b := ""
+	if c.Batch {
+		b = " (responder's first send stalls, the rest of the response arrives in one message)"
+	}
+	return fmt.Sprintf("shape %s selector %s split %s pause %s@%d%s", c.Shape, c.Sel, c.Split, c.Mode, c.At, b)
 }
 
 type c06Obs struct {
@@ -73,6 +78,14 @@ func c06Run(cfg vsched.Config, cs c06Case) (*c06Obs, *vsched.Sched) {
 		if cs.Mode == "resp-api-held" {
 			f.Net.SendFault = func(from, to peer.ID, k int, m gsmsg.GraphSyncMessage) harness.FaultAction {
 				if from == r.ID && k >= cs.At {
+					return harness.SendHold
+				}
+				return harness.SendOK
+			}
+		}
+		if cs.Batch {
+			f.Net.SendFault = func(from, to peer.ID, k int, m gsmsg.GraphSyncMessage) harness.FaultAction {
+				if from == r.ID && k == 0 {
 					return harness.SendHold
 				}
 				return harness.SendOK
@@ -150,6 +163,10 @@ func c06Run(cfg vsched.Config, cs c06Case) (*c06Obs, *vsched.Sched) {
 				}},
 				{Name: "release", Enabled: func() bool { return !released && f.Net.Held > 0 && tried }, Do: func() { released = true; f.Net.ReleaseHeld() }},
 			}, evs...)
+		}
+		if cs.Batch {
+			released := false
+			evs = append([]*harness.Event{{Name: "release", Enabled: func() bool { return !released && f.Net.Held > 0 }, Do: func() { released = true; f.Net.ReleaseHeld() }}}, evs...)
 		}
 		if cs.Mode == "req-both" {
 			// an API pause accepted just before the block at which the block hook also asks for a pause
@@ -244,7 +261,7 @@ func c06Judge(cs c06Case, o *c06Obs) *core.Violation {
 	base, ok := c06Base[key]
 	if !ok {
 		b := cs
-		b.Mode, b.At = "none", 0
+		b.Mode, b.At, b.Batch = "none", 0, false
 		base, _ = c06Run(vsched.Config{Fast: true}, b)
 		c06Base[key] = base
 	}
@@ -374,6 +391,9 @@ func c06Cases(thorough bool) []c06Case {
 					}
 					for at := lo; at <= hi; at++ {
 						out = append(out, c06Case{Shape: sh, Sel: sn, Split: sp, Mode: mode, At: at})
+						if (mode == "req-hook" || mode == "req-api") && n >= 3 {
+							out = append(out, c06Case{Shape: sh, Sel: sn, Split: sp, Mode: mode, At: at, Batch: true})
+						}
 					}
 				}
 			}
